@@ -5,7 +5,7 @@ use crate::{observe, GrammarEntry, Obs, RuleEntry, TEv, MODE_PLAIN, MODE_REC};
 use proptest::prelude::*;
 use proptest::test_runner::{Config, RngAlgorithm, TestCaseError, TestError, TestRng, TestRunner};
 use serde_json::json;
-use std::cell::RefCell;
+use std::cell::{Cell, RefCell};
 use std::collections::{BTreeMap, HashMap};
 use verif_core::inputs;
 use verif_core::interp;
@@ -115,6 +115,41 @@ fn history_strategy(max_inputs: usize) -> impl Strategy<Value = (Vec<Vec<u8>>, V
     (proptest::collection::vec(proptest::collection::vec(any::<u8>(), 0..100), 3..max_inputs), proptest::collection::vec(any::<u16>(), 4..(max_inputs * 2)))
 }
 
+/// one history: first-time results of every input (separate strings), then the generated order of re-parses out of one
+/// reused buffer, some through parse_with_trace, some preceded by a traced parse that a panicking user function aborts
+fn history_steps(g: &GCtx, e: &RuleEntry, ins: &[String], order: &[u16]) -> Result<usize, Failure> {
+    let reference: Vec<Obs> = ins.iter().map(|i| observe(e.parse, i, MODE_PLAIN, 0)).collect();
+    // the history is parsed out of ONE reused buffer (a REPL / line reader does that): successive inputs then share their
+    // address, and equal-length ones their whole address range
+    let mut buf = String::with_capacity(inputs::PUMP_MAX_LEN + 64);
+    let mut aborted = 0;
+    for (step, ix) in order.iter().enumerate() {
+        let k = ((*ix as usize) * ins.len()) >> 16;
+        buf.clear();
+        buf.push_str(&ins[k]);
+        if ix % 7 == 3 {
+            // a traced parse aborted by a panic in a user function (caught by the application): later parses must not
+            // notice it
+            let o = observe(e.parse, &buf, crate::MODE_INDENTED, verif_core::hooks::PANIC_SALT);
+            if o.panic.is_some() {
+                aborted += 1;
+            }
+        }
+        // every fifth step through parse_with_trace: the same result
+        let mode = if ix % 5 == 0 { crate::MODE_INDENTED } else { MODE_PLAIN };
+        let obs = observe(e.parse, &buf, mode, 0);
+        if obs.result_key() != reference[k].result_key() {
+            let f = fail(
+                format!("result depends on earlier parse calls: step {step} ({}) re-parsing input #{k} {:?} of rule {} (inputs parsed from one reused buffer; {aborted} earlier parses aborted by a panicking user function)", if mode == MODE_PLAIN { "parse" } else { "parse_with_trace" }, ins[k], e.rule),
+                reference[k].summary(),
+                obs.summary(),
+            );
+            return Err(f);
+        }
+    }
+    Ok(aborted)
+}
+
 fn history_case(
     g: &GCtx,
     e: &RuleEntry,
@@ -146,30 +181,20 @@ fn history_case(
         out.skipped = Some("oracle_diverged");
         return Ok((out, ins));
     }
-    let reference: Vec<Obs> = ins.iter().map(|i| observe(e.parse, i, MODE_PLAIN, 0)).collect();
-    // the history is parsed out of ONE reused buffer (a REPL / line reader does that): successive inputs then share their
-    // address, and equal-length ones their whole address range
-    let mut buf = String::with_capacity(inputs::PUMP_MAX_LEN + 64);
-    for (step, ix) in order.iter().enumerate() {
-        let k = ((*ix as usize) * ins.len()) >> 16;
-        buf.clear();
-        buf.push_str(&ins[k]);
-        let obs = observe(e.parse, &buf, MODE_PLAIN, 0);
-        if obs.result_key() != reference[k].result_key() {
-            let f = fail(
-                format!("result depends on earlier parse calls: step {step} re-parsing input #{k} {:?} of rule {} (inputs parsed from one reused buffer)", ins[k], e.rule),
-                reference[k].summary(),
-                obs.summary(),
-            );
-            return Err((f, ins));
-        }
-    }
+    let aborted = match history_steps(g, e, &ins, order) {
+        Ok(a) => a,
+        Err(f) => return Err((f, ins)),
+    };
     let mut lens = BTreeMap::new();
     for i in &ins {
         *lens.entry(i.len()).or_insert(0) += 1;
     }
     if lens.values().any(|c| *c >= 2) {
         out.classes.push("equal_length_inputs");
+        out.nontrivial = true;
+    }
+    if aborted > 0 {
+        out.classes.push("history_with_aborted_parse");
         out.nontrivial = true;
     }
     Ok((out, ins))
@@ -184,6 +209,7 @@ fn run_histories(cr: &CaseRunner, g: &GCtx, e: &RuleEntry, partial: &mut Partial
     );
     let failed = RefCell::new(false);
     let acc = RefCell::new((0u64, Vec::<u64>::new(), 0u64));
+    let aborted_histories = Cell::new(0u64);
     let last: RefCell<Option<(Vec<String>, Vec<u16>, Failure)>> = RefCell::new(None);
     let want_sample = partial.samples.len() < 4;
     let sample: RefCell<Option<serde_json::Value>> = RefCell::new(None);
@@ -200,6 +226,9 @@ fn run_histories(cr: &CaseRunner, g: &GCtx, e: &RuleEntry, partial: &mut Partial
                     let parts: Vec<&[u8]> = ins.iter().map(|s| s.as_bytes()).collect();
                     a.1.push(hash_parts(&parts) ^ g.ghash);
                     a.2 += 1;
+                }
+                if out.classes.contains(&"history_with_aborted_parse") {
+                    aborted_histories.set(aborted_histories.get() + 1);
                 }
             }
             Ok(())
@@ -218,6 +247,9 @@ fn run_histories(cr: &CaseRunner, g: &GCtx, e: &RuleEntry, partial: &mut Partial
         partial.samples.push(sm);
     }
     *partial.classes.entry("history_with_equal_length_inputs".into()).or_insert(0) += a.2;
+    if aborted_histories.get() > 0 {
+        *partial.classes.entry("history_with_aborted_parse".into()).or_insert(0) += aborted_histories.get();
+    }
     if let Err(TestError::Fail(..)) = result {
         if let Some((ins, order, f)) = last.into_inner() {
             partial.violations.push(json!({
@@ -683,11 +715,13 @@ fn run_c20(table: &'static [GrammarEntry], ctxs: &[(usize, GCtx)], cr: &CaseRunn
                         barrier.wait();
                         let mut out = vec![];
                         // each thread walks its items twice (repetition)
-                        for _rep in 0..2 {
+                        for rep in 0..2usize {
                             for &i in idxs {
                                 buf.clear();
                                 buf.push_str(&work[i].3);
-                                let o = observe(work[i].0, &buf, MODE_PLAIN, 0);
+                                // some of the concurrent parses go through parse_with_trace
+                                let mode = if (i + rep) % 5 == 0 { crate::MODE_INDENTED } else { MODE_PLAIN };
+                                let o = observe(work[i].0, &buf, mode, 0);
                                 out.push((i, (o.ok, o.debug, o.err_pos, o.err_spec, o.panic.is_some())));
                             }
                         }
@@ -789,17 +823,8 @@ pub fn replay(table: &'static [GrammarEntry], by_id: &HashMap<String, ModelEntry
             for (ti, g) in &ctxs {
                 if let Some(e) = find_rule(table, *ti, rule) {
                     partial.evaluations += 1;
-                    let reference: Vec<Obs> = ins.iter().map(|i| observe(e.parse, i, MODE_PLAIN, 0)).collect();
-                    let mut buf = String::with_capacity(inputs::PUMP_MAX_LEN + 64);
-                    for ix in &order {
-                        let k = ((*ix as usize) * ins.len()) >> 16;
-                        buf.clear();
-                        buf.push_str(&ins[k]);
-                        let obs = observe(e.parse, &buf, MODE_PLAIN, 0);
-                        if obs.result_key() != reference[k].result_key() {
-                            partial.violations.push(json!({"property": cr.prop, "kind": "history", "grammar_text": g.text, "rule": rule, "message": "result depends on earlier parse calls"}));
-                            break;
-                        }
+                    if let Err(f) = history_steps(g, e, &ins, &order) {
+                        partial.violations.push(json!({"property": cr.prop, "kind": "history", "grammar_text": g.text, "rule": rule, "message": f.msg, "expected": f.expected, "observed": f.observed}));
                     }
                 }
             }
